@@ -96,6 +96,10 @@ def productions(d, start, rng=None):
         if len(nm) >= 3:
             sp = 'e' + nm[1:][::-1]
             P.append((f'(({{x}}).{sp} * ({{y}}))', 2, {'coeff', 'coeff-permuted'}, 1))
+    for nm in names[1:]:
+        if len(nm) >= 4:
+            cyc = 'e' + nm[2:] + nm[1]       # cyclic shift: an even permutation for grade 3
+            P.append((f'(({{x}}).{cyc} * ({{y}}))', 2, {'coeff', 'coeff-permuted', 'coeff-cyclic'}, 1))
     P.append((f'(({{y}}) + ({{x}}).{names[-1]})', 2, {'coeff', 'coeff-add'}, 1))
     # calls of other registered functions (g1, g2 are provided by the harness)
     P.append(('g1({x}, {y})', 2, {'regcall'}, 1))
